@@ -521,11 +521,17 @@ func run1(c Case) ev.Verdict {
 		return ev.Fail("SendWithCallbacks panicked: %v", got.err)
 	}
 
-	var chunks []string
+	var (
+		chunks   []string
+		chunkAge []time.Duration // how long before the send returned the chunk was delivered
+	)
+
+	endAt := pipe.Since()
 
 	for _, e := range pipe.Events() {
 		if e.Kind == "r" {
 			chunks = append(chunks, e.Data)
+			chunkAge = append(chunkAge, endAt-e.At)
 		}
 	}
 
@@ -566,8 +572,10 @@ func run1(c Case) ev.Verdict {
 				continue
 			}
 
-			if n < len(chunks) && gotEnd == "timeout" {
-				// a timeout must have looked at everything that arrived before it fired
+			if n < len(chunks) && gotEnd == "timeout" && chunkAge[n] > 50*time.Millisecond {
+				// a timeout must have looked at everything that arrived well before it fired (a
+				// chunk handed over by the transport in the last moments may not have reached the
+				// callback loop yet: wall-clock tier)
 				continue
 			}
 
@@ -576,9 +584,6 @@ func run1(c Case) ev.Verdict {
 			break
 		}
 
-		if gotEnd == "timeout" {
-			break
-		}
 	}
 
 	if !matched {
